@@ -125,6 +125,11 @@ Eff(env, log) == IF log = <<>> THEN env ELSE [env EXCEPT !.store = EffStore(@, l
 \*   "string", "number", "bool"  conversions (identity on the own type is all the
 \*                               core cases use; richer contracts are Builtins')
 \*   "unreg"  not registered: error
+RECURSIVE SumVals(_, _)
+\* sum of the integers args[i..]: a Norm record ([ok, v]); outside the window it is not ok
+SumVals(args, i) == IF i = Len(args) THEN [ok |-> TRUE, v |-> args[i]]
+                    ELSE LET rest == SumVals(args, i + 1) IN
+                         IF ~rest.ok THEN rest ELSE RAdd(args[i], rest.v)
 CallFn(kind, args, env, log) ==
   CASE kind = "id" -> IF Len(args) = 1 THEN Ok(args[1], log) ELSE Err(log)
     [] kind = "boom" -> Err(log)
@@ -141,6 +146,14 @@ CallFn(kind, args, env, log) ==
     [] kind = "idint" -> IF Len(args) # 1 \/ ~IsNum(args[1]) THEN Err(log)
                          ELSE IF IsSpecial(args[1]) \/ args[1].d # 1 THEN Oos(log)     \* conversion of non-integers: not modelled
                          ELSE Ok(args[1], log)
+    \* converted functions of several integer parameters: func(a, b Count) int and func(first Count, rest ...Count) int.
+    \* A call refused for an argument (wrong type at any position, wrong count) leaves nothing behind: the next
+    \* call of the same function gets exactly its own arguments (every call is judged on its own, whatever came before)
+    [] kind \in {"add2", "sumv"} ->
+         IF (kind = "add2" /\ Len(args) # 2) \/ (kind = "sumv" /\ Len(args) < 1) THEN Err(log)
+         ELSE IF \E i \in 1..Len(args) : ~IsNum(args[i]) THEN Err(log)
+         ELSE IF \E i \in 1..Len(args) : IsSpecial(args[i]) \/ args[i].d # 1 THEN Oos(log)
+         ELSE FromNorm(SumVals(args, 1), log)
     [] kind = "visited" ->
          IF Len(args) # 1 \/ ~IsStr(args[1]) THEN Err(log)
          ELSE Ok(Bool(args[1].s \in env.nodes /\ env.visits[args[1].s] > 0), log)
